@@ -122,13 +122,16 @@ Theorem C16_shortest_first_refuted :
 Proof. intros md5 ph. repeat split; vm_compute; reflexivity. Qed.
 Print Assumptions C16_shortest_first_refuted.
 
-(* F16e (open): the code sorts by the length of the ABSOLUTE reference string, not of the spelling it substitutes.
+(* The code sorts by the length of the ABSOLUTE reference string, not of the spelling it substitutes.
    A consumer in stage 1 that reads out.txt of the producer gen of its own stage (written gen/out.txt:ref) and of
    the producer gen of stage 0 (stage0.gen/out.txt:ref): both absolute strings have the same length, the sort is
    stable, so when the relative reference is listed first it is visited first and replaced inside the absolute
    one: "stage0." survives (the hash depends on the stage index) and the contents of the file of stage 0 are not
    in the arguments.  With a consumer in stage 10 and the other producer in stage 1 the listing order does not
-   matter: the absolute string of the relative reference is the longer one. *)
+   matter: the absolute string of the relative reference is the longer one.
+   NOT REACHABLE through a validated experiment: ComponentSpecification.checkDataReferences (the validation of the
+   command line) rejects these descriptions, so no finding is recorded; the run keeps generating them and counts
+   them as rejected. *)
 Definition same_name_comp (own other : string) (swap : bool) : comp :=
   let r_own := pfile ("stage" ++ own ++ ".gen/out.txt:ref") "gen/out.txt:ref" 1 "TWO" in
   let r_other := pfile ("stage" ++ other ++ ".gen/out.txt:ref") ("stage" ++ other ++ ".gen/out.txt:ref") 0 "ONE" in
@@ -154,3 +157,30 @@ Theorem C16_sort_key_refuted :
   run "10" "1" false = Some "file:<TWO>:ref stage1.file:<TWO>:ref".
 Proof. intros md5 ph. repeat split; vm_compute; reflexivity. Qed.
 Print Assumptions C16_sort_key_refuted.
+
+(* F16e (open): a later substitution also rewrites what an earlier one wrote ([inert] fails).  The fuzzy
+   replacement of a file made by a producer ends in <path below the producer>:<method>; the consumer reads
+   outer/gen/out.txt:ref and gen/out.txt:ref (producers outer and gen of its stage): the code's order visits the
+   long reference first, then rewrites the tail of its replacement.  The fuzzy arguments (hence the fuzzy hash)
+   depend on the name of the producer gen: called alpha (file outer/gen/out.txt unchanged), the same work gets
+   the arguments the property asks for.  The strong replacement (file:<md5>:ref) is inert. *)
+Definition inner_comp (name : string) : comp :=
+  {| c_name := "consumer"; c_stage := 0; c_location := "instance"; c_exe := "cat"; c_args := [TRef 0; TLit " "; TRef 1];
+     c_refs := [ {| d_key := "stage0.outer/gen/out.txt:ref"; d_text := "outer/gen/out.txt:ref"; d_location := ""; d_mtime := 0;
+                    d_prod := Some 1%nat; d_fileref := "gen/out.txt"; d_method := "ref"; d_state := FFile "TWO" |};
+                 pfile ("stage0." ++ name ++ "/out.txt:ref") (name ++ "/out.txt:ref") 0 "ONE" ];
+     c_backend := BLocal |}.
+Theorem C16_fuzzy_replacement_refuted :
+  let md5 := fun s => "<" ++ s ++ ">" in
+  let ph := fun p : nat => Some (if Nat.eqb p 0 then "H0" else "H1") in
+  let run := fun fuzzy name =>
+    option_map i_args (info_of_chars md5 fuzzy ph ["outer/gen/out.txt:ref"; name ++ "/out.txt:ref"] (code_order (c_refs (inner_comp name)))
+                                     (inner_comp name)) in
+  code_order (c_refs (inner_comp "gen")) = [0; 1]%nat /\
+  run true "gen" = Some "file:fuzzy#H1#file:fuzzy#H0#out.txt:ref file:fuzzy#H0#out.txt:ref" /\
+  option_map i_args (info_of md5 true ph (inner_comp "gen")) = Some "file:fuzzy#H1#gen/out.txt:ref file:fuzzy#H0#out.txt:ref" /\
+  run true "alpha" = Some "file:fuzzy#H1#gen/out.txt:ref file:fuzzy#H0#out.txt:ref" /\
+  run false "gen" = option_map i_args (info_of md5 false ph (inner_comp "gen")) /\
+  inert [("outer/gen/out.txt:ref", "file:fuzzy#H1#gen/out.txt:ref"); ("gen/out.txt:ref", "file:fuzzy#H0#out.txt:ref")] = false.
+Proof. repeat split; vm_compute; reflexivity. Qed.
+Print Assumptions C16_fuzzy_replacement_refuted.
